@@ -17,11 +17,16 @@ Room(g) == Len(g.prog[Cur(g)].ev) < (IF StmtKind(CurKind(g)) THEN MaxEvStmt ELSE
 CanOpen(g) == Room(g) /\ Len(g.prog) < MaxScopes /\ Len(g.stack) <= MaxDepth
 
 \* ---- the alphabet
+\* ordinary names (everything may happen to them) vs the special name __class__ (only used, only in
+\* function-like scopes)
+UserSeq == SelectSeq(NameSeq, LAMBDA n : n # CLS)
+UserNames == Range(UserSeq)
+HasCls == CLS \in Names
 StmtOps == <<"bind", "use", "del", "global", "nonlocal">>
 OpsOf(k) == IF StmtKind(k) THEN (IF k = "class" /\ WithLocset THEN StmtOps \o <<"locset">> ELSE StmtOps) ELSE <<"use">>
 ChildKinds(k) == IF StmtKind(k) THEN <<"def", "lambda", "class", "comp">> ELSE <<"lambda", "comp">>
-ParModes == <<NoPar, [k |-> "arg", from |-> "-"], [k |-> "dup", from |-> "-"]>> \o [i \in 1..Len(NameSeq) |-> [k |-> "dflt", from |-> NameSeq[i]]]
-NameOrNone == <<"-">> \o NameSeq
+ParModes == <<NoPar, [k |-> "arg", from |-> "-"], [k |-> "dup", from |-> "-"]>> \o [i \in 1..Len(UserSeq) |-> [k |-> "dflt", from |-> UserSeq[i]]]
+NameOrNone == <<"-">> \o UserSeq
 Callable(g) == SelectSeq([c \in 1..Len(g.prog) |-> c], LAMBDA c : g.prog[c].parent = Cur(g) /\ g.prog[c].kind \in {"def", "lambda"})
 NewScope(g, kind, par, iter, tgt) == [kind |-> kind, parent |-> Cur(g), par |-> TLCEval(par), iter |-> iter, tgt |-> tgt, ev |-> <<>>]
 
@@ -33,13 +38,14 @@ Close(g) == [g EXCEPT !.stack = SubSeq(@, 1, Len(@) - 1)]
 
 \* every step enabled in g (exhaustive driver)
 Succ(g) ==
-     (IF Room(g) THEN { AddEv(g, Ev(OpsOf(CurKind(g))[o], n, 0)) : o \in 1..Len(OpsOf(CurKind(g))), n \in Names } ELSE {})
+     (IF Room(g) THEN { AddEv(g, Ev(OpsOf(CurKind(g))[o], n, 0)) : o \in 1..Len(OpsOf(CurKind(g))), n \in UserNames } ELSE {})
+  \cup (IF Room(g) /\ HasCls /\ CurKind(g) \in {"def", "lambda", "comp"} THEN { AddEv(g, Ev("use", CLS, 0)) } ELSE {})
   \cup (IF Room(g) /\ StmtKind(CurKind(g)) THEN { AddEv(g, Ev("call", "-", Callable(g)[j])) : j \in 1..Len(Callable(g)) } ELSE {})
   \cup (IF CanOpen(g) THEN
           { Open(g, NewScope(g, "class", [n \in Names |-> NoPar], "-", "-")) : x \in (IF StmtKind(CurKind(g)) THEN {1} ELSE {}) }
           \cup { Open(g, NewScope(g, "comp", [n \in Names |-> NoPar], it, tg)) : it \in Range(NameOrNone), tg \in Range(NameOrNone) }
           \cup { Open(g, NewScope(g, k, pm, "-", "-")) : k \in (IF StmtKind(CurKind(g)) THEN {"def", "lambda"} ELSE {"lambda"}),
-                                                        pm \in [Names -> Range(ParModes)] }
+                                                        pm \in { f \in [Names -> Range(ParModes)] : HasCls => f[CLS] = NoPar } }
         ELSE {})
   \cup (IF Len(g.stack) > 1 THEN { Close(g) } ELSE {})
 
@@ -60,25 +66,32 @@ WPick(table, d) ==      \* table = sequence of <<weight, value>>
 OpWeights(k) == IF StmtKind(k)
                 THEN << <<30, "bind">>, <<36, "use">>, <<10, "del">>, <<9, "global">>, <<11, "nonlocal">> >>
                      \o (IF k = "class" /\ WithLocset THEN << <<25, "locset">> >> ELSE <<>>)
-                ELSE << <<1, "use">> >>
+                     \* ("supref" -- the bare name `super`, which also counts as a use of __class__ -- is specified but
+                     \* not generated: gpython has no builtin `super`, a missing feature outside C03)
+                     \o (IF k = "def" /\ HasCls THEN << <<10, "usecls">> >> ELSE <<>>)
+                ELSE << <<8, "use">> >> \o (IF HasCls THEN << <<1, "usecls">> >> ELSE <<>>)
 ModeWeights == << <<52, 1>>, <<26, 2>>, <<2, 3>>, <<20, 4>> >>     \* none, arg, dup, dflt
 ParOfDie(d) == LET m == WPick(ModeWeights, d) IN
-               IF m = 4 THEN [k |-> "dflt", from |-> Pick(NameSeq, d \div 100)] ELSE ParModes[m]
+               IF m = 4 THEN [k |-> "dflt", from |-> Pick(UserSeq, d \div 100)] ELSE ParModes[m]
 DiceOpen(g, d) ==
   LET k == IF StmtKind(CurKind(g)) THEN WPick(<< <<40, "def">>, <<22, "class">>, <<18, "lambda">>, <<20, "comp">> >>, d[2])
            ELSE Pick(ChildKinds(CurKind(g)), d[2]) IN
   IF k = "class" THEN Open(g, NewScope(g, "class", [n \in Names |-> NoPar], "-", "-"))
   ELSE IF k = "comp" THEN Open(g, NewScope(g, "comp", [n \in Names |-> NoPar], Pick(NameOrNone, d[3]), Pick(NameOrNone, d[4])))
-  ELSE Open(g, NewScope(g, k, [n \in Names |-> IF n = NameSeq[1] THEN ParOfDie(d[3]) ELSE ParOfDie(d[4] + 7 * (CHOOSE i \in 1..Len(NameSeq) : NameSeq[i] = n))], "-", "-"))
+  ELSE Open(g, NewScope(g, k, [n \in Names |-> IF n = CLS THEN NoPar
+                                                ELSE IF n = UserSeq[1] THEN ParOfDie(d[3])
+                                                ELSE ParOfDie(d[4] + 7 * (CHOOSE i \in 1..Len(UserSeq) : UserSeq[i] = n))], "-", "-"))
 \* a declaration that the construction already knows to be illegal (the name occurs earlier in the
 \* block; nonlocal in the module) is kept only one time in eight: rejected programs are wanted,
 \* but not as the majority
 SeenIn(g, n) == \E j \in 1..Len(g.prog[Cur(g)].ev) : EvDefs(g.prog, Cur(g), j, n) # {}
 DiceEv(g, d) ==
   LET op == WPick(OpWeights(CurKind(g)), d[2])
-      n == Pick(NameSeq, d[3])
+      n == Pick(UserSeq, d[3])
       hopeless == op \in {"global", "nonlocal"} /\ (SeenIn(g, n) \/ (op = "nonlocal" /\ Len(g.stack) = 1) \/ g.prog[Cur(g)].par[n].k # "-")
-  IN AddEv(g, Ev(IF hopeless /\ d[4] % 8 # 0 THEN (IF d[4] % 2 = 0 THEN "use" ELSE "bind") ELSE op, n, 0))
+  IN IF op = "usecls" THEN AddEv(g, Ev("use", CLS, 0))
+     ELSE IF op = "supref" THEN AddEv(g, Ev("supref", "-", 0))
+     ELSE AddEv(g, Ev(IF hopeless /\ d[4] % 8 # 0 THEN (IF d[4] % 2 = 0 THEN "use" ELSE "bind") ELSE op, n, 0))
 DiceStep(g, d) ==
   LET want == IF Len(g.stack) = 1
               THEN WPick(<< <<30, "ev">>, <<18, "call">>, <<52, "open">> >>, d[1])
@@ -94,7 +107,7 @@ DiceStep(g, d) ==
      ELSE g
 \* the first die decides which names the module binds before anything else
 Preamble(d) == LET m == d[1] % 4 IN
-  FoldLeft(LAMBDA g, j : IF (j = 1 /\ m \in {1, 3}) \/ (j > 1 /\ m \in {2, 3}) THEN AddEv(g, Ev("bind", NameSeq[j], 0)) ELSE g,
-           G0, [j \in 1..Len(NameSeq) |-> j])
+  FoldLeft(LAMBDA g, j : IF (j = 1 /\ m \in {1, 3}) \/ (j > 1 /\ m \in {2, 3}) THEN AddEv(g, Ev("bind", UserSeq[j], 0)) ELSE g,
+           G0, [j \in 1..Len(UserSeq) |-> j])
 Build(dice) == IF dice = <<>> THEN G0 ELSE FoldLeft(LAMBDA g, d : DiceStep(g, d), Preamble(dice[1]), Tail(dice))
 ====
